@@ -100,9 +100,12 @@ class CylindricalKernel(Kernel):
 
     @angular_weights.setter
     def angular_weights(self, value: Tensor) -> None:
-        if not torch.is_tensor(value):
-            value = torch.tensor(value)
+        self._set_angular_weights(value)
 
+    def _set_angular_weights(self, value: Union[Tensor, float]) -> None:
+        # Used by the angular_weights_prior
+        if not isinstance(value, Tensor):
+            value = torch.as_tensor(value).to(self.raw_angular_weights)
         self.initialize(raw_angular_weights=self.raw_angular_weights_constraint.inverse_transform(value))
 
     @property
